@@ -700,9 +700,9 @@ def _run(ctx, thorough, base):
         bad_old = parse_coq_list_of_nat(o3) if ok3 else None
     ctx.cov['disagreements_checked'] = len(bad_new)
     matches_old = bad_old == []
-    for b in sorted(bad_new, key=lambda b: 0 if ('details' in cases[b] and property_on_impl(dict(cases[b], calibration=False), crash_classes)) else 1)[:2]:
+    for b in sorted(bad_new, key=lambda b: 0 if ('details' in cases[b] and property_on_impl(cases[b], crash_classes)) else 1)[:2]:
         h = cases[b]
-        badp = property_on_impl(dict(h, calibration=False), crash_classes) if 'details' in h else None
+        badp = property_on_impl(h, crash_classes) if 'details' in h else None
         ctx.broken.append('correspondence C20 model(New)<->impl differs on history %s' % h['name'])
         ctx.report('tie:%s' % h['name'],
                    'the processes did not do what the model of the repaired protocol predicts for history %s%s%s' % (
